@@ -120,8 +120,9 @@ class PtySession:
                 shlex.quote(self.dir), cmd, shlex.quote(self.out_path), shlex.quote(self.status_path),
                 shlex.quote(self.status_path), shlex.quote(self.status_path)))
         os.chmod(script, 0o755)
+        self.claims_path = os.path.join(self.dir, "claims")
         e = go_env({"TERM": "xterm-256color", "LC_ALL": "C.UTF-8", "LANG": "C.UTF-8", "SHELL": "/bin/sh", "TMPDIR": self.tmp,
-                    "VERIF_SID": self.sid})
+                    "VERIF_SID": self.sid, "VERIF_CLAIMS": self.claims_path})
         for k in ("TMUX", "TMUX_PANE", "FZF_VERIF_TRACE"):
             e.pop(k, None)
         if default_command is not None:
@@ -137,6 +138,7 @@ class PtySession:
         self.lock = threading.Lock()
         self.cursor_row = height      # what the "terminal" answers to a cursor position query (bottom line, column 1)
         self.eof = False
+        self.idle_at = 0.0
         pid = os.fork()
         if pid == 0:
             try:
@@ -163,8 +165,9 @@ class PtySession:
         scanned = 0
         while True:
             try:
-                r, _, _ = select.select([self.master], [], [], 0.5)
+                r, _, _ = select.select([self.master], [], [], 0.03)
                 if not r:
+                    self.idle_at = time.monotonic()
                     continue
                 data = os.read(self.master, 65536)
             except OSError:
@@ -185,10 +188,19 @@ class PtySession:
                     except OSError:
                         pass
         self.eof = True
+        self.idle_at = time.monotonic() + 1e9
 
     def stream(self):
         with self.lock:
             return bytes(self.raw)
+
+    def drain(self, timeout=20.0):
+        """Returns once everything fzf had written before the call has been read from the pty."""
+        t = time.monotonic()
+        while self.idle_at <= t and not self.eof:
+            if time.monotonic() - t > timeout:
+                raise Infra("pty never went idle")
+            time.sleep(0.005)
 
     def offset(self):
         with self.lock:
@@ -324,6 +336,14 @@ class PtySession:
     def exited(self):
         return os.path.exists(self.status_path)
 
+    def wait_gone_only(self, timeout):
+        t0 = time.time()
+        while not self.fzf_gone():
+            if time.time() - t0 > timeout:
+                return False
+            time.sleep(0.01)
+        return True
+
     def kill_producer(self):
         needle = ("VERIF_PRODUCER=%s" % self.sid).encode()
         for d in os.listdir("/proc"):
@@ -391,3 +411,461 @@ class PtySession:
         except OSError:
             pass
         self.reader.join(timeout=2)
+
+
+# ---------------------------------------------------------------------------------------------------------------
+# One life of fzf: step primitives (shared by the spec-generated behaviours and the seeded random scenarios) and the
+# projection of everything observed onto the events of spec/Trace_Lifecycle.tla
+# ---------------------------------------------------------------------------------------------------------------
+KIND_TAG = {"preview": 1001, "reload": 1002, "execute": 1003, "silent": 1004}
+ACTION_OF = {"preview": "preview", "reload": "reload", "execute": "execute", "silent": "execute-silent"}
+PANIC_MARKS = (b"panic:", b"goroutine ", b"fatal error")
+PASTE_ON = b"\x1b[?2004h"
+
+
+def kind_of(cmdline):
+    for k, n in KIND_TAG.items():
+        if "sleep %d" % n in cmdline:
+            return k
+    return "other"
+
+
+def child_command(kind, ntemps):
+    """A command that never ends by itself; its {f}/{+f} placeholders make fzf create ntemps temp files for it."""
+    ph = ["{f}", "{+f}"][:ntemps]
+    # the command itself records which temp files are its own (the driver reads the claims, it does not guess)
+    cmd = ("echo %s %s >> \"$VERIF_CLAIMS\"; " % (kind, " ".join(ph))) if ph else ""
+    if kind == "reload":
+        cmd += "echo a; echo b; "
+    return cmd + "sleep %d" % KIND_TAG[kind]
+
+
+def cfg_args(cfg):
+    a = []
+    if not cfg["full"]:
+        a.append("--height=%s" % cfg.get("height", "10"))
+    if not cfg["mouse"]:
+        a.append("--no-mouse")
+    if not cfg["clear"]:
+        a.append("--no-clear")
+    return a
+
+
+def has_panic(raw):
+    return any(m in raw for m in PANIC_MARKS)
+
+
+class Life:
+    def __init__(self, ctx, fzf, sid, cfg, extra_args=(), items=("a", "b", "c"), size=(80, 24), default_command=None,
+                 input_cmd=None, cmds=()):
+        self.ctx, self.sid, self.cfg = ctx, sid, cfg
+        self.cmds = sorted(set(cmds))
+        self.s = PtySession(ctx, fzf, cfg_args(cfg) + list(extra_args),
+                            input_data=None if (default_command or input_cmd) else "".join(i + "\n" for i in items),
+                            input_cmd=input_cmd, default_command=default_command, width=size[0], height=size[1])
+        self.marks = []
+        self.alive = True
+        self.requested = []
+        self.log = []
+        self.owner_memo = {}      # temp file -> kind of the command whose command line named it while it was alive
+
+    # ------------------------------------------------------------ recording
+    def mark(self, ev):
+        self.marks.append((self.s.offset(), len(self.marks), ev))
+
+    def note(self, *a):
+        self.log.append(" ".join(str(x) for x in a))
+
+    def world(self):
+        """(kinds alive, owner kind of each temp file)."""
+        procs = self.s.children()
+        kinds = sorted({kind_of(c) for _, _, c in procs})
+        owners = []
+        try:
+            with open(self.s.claims_path) as fh:
+                for line in fh:
+                    w = line.split()
+                    for path in w[1:]:
+                        self.owner_memo[os.path.basename(path)] = w[0]
+        except FileNotFoundError:
+            pass
+        for f in self.s.temp_files():
+            own = sorted({kind_of(c) for _, _, c in procs if f in c})
+            if own:
+                self.owner_memo[f] = own[0]
+            owners.append(own[0] if own else self.owner_memo.get(f, "none"))
+        return kinds, sorted(owners)
+
+    def observe(self, sample=True):
+        """Quiescent-point observation: what is alive, which temp files exist, termios."""
+        self.s.drain()
+        kinds, owners = self.world()
+        self.mark({"ev": "child", "kinds": kinds, "temps": owners})
+        if sample:
+            self.mark({"ev": "tio", "tio": self.s.termios_state()})
+
+    def probe_alive(self):
+        """Liveness probe: GET / within a generous bound, one retry."""
+        for _ in range(2):
+            if self.s.fzf_gone() or self.s.get(timeout=30) is not None:
+                return
+            if self.s.wait_gone_only(5):     # the listener closes a moment before the process is gone
+                return
+        self.alive = False
+        self.note("no answer to GET /")
+
+    def paste_count(self):
+        return self.s.stream().count(PASTE_ON)
+
+    def proc_state(self):
+        try:
+            with open("/proc/%d/stat" % self.s.fzf_pid(), "rb") as fh:
+                stat = fh.read()
+            return stat[stat.rfind(b")") + 2:].split()[0].decode()
+        except OSError:
+            return "X"
+
+    def wait_until(self, cond, timeout, what):
+        t0 = time.time()
+        while not cond():
+            if time.time() - t0 > timeout:
+                return False
+            if self.s.fzf_gone():
+                return False
+            time.sleep(0.005)
+        return True
+
+    # ------------------------------------------------------------ steps
+    def init(self):
+        self.s.wait_listening()
+        self.s.wait_stream(lambda b: PASTE_ON in b, timeout=90, what="renderer initialisation")
+        self.s.drain()
+        self.mark({"ev": "tio", "tio": self.s.termios_state()})
+
+    def post(self, body, final=False):
+        try:
+            st, _ = self.s.post(body, final=final)
+        except OSError:
+            if self.s.fzf_gone():
+                return 0
+            raise Infra("POST %r failed while fzf is alive" % body)
+        if st not in (0, 200):
+            raise Infra("POST %r -> %d" % (body, st))
+        return st
+
+    def start(self, kind, ntemps, wait=True):
+        self.post("%s(%s)" % (ACTION_OF[kind], child_command(kind, ntemps)))
+        if wait:
+            self.await_child(kind)
+
+    def await_child(self, kind, timeout=60):
+        tag = "sleep %d" % KIND_TAG[kind]
+        pid = self.s.wait_child(tag, timeout=timeout)
+        if pid is None:
+            return False
+        self.observe()
+        return True
+
+    def kind_pids(self, kind, only_sleep=True):
+        tag = "sleep %d" % KIND_TAG[kind]
+        return [pid for pid, comm, c in self.s.children() if tag in c and (comm == "sleep" or not only_sleep)]
+
+    def end(self, kind, method="kill"):
+        """The command ends: its `sleep` is terminated (or, for a command that owns the terminal, the user types ^C)."""
+        before = self.paste_count()
+        was = self.s.termios_state()
+        if method == "ctrl-c":
+            self.request("SIGINT", send=False)      # the terminal sends SIGINT to the whole foreground group, fzf included
+            self.s.send(b"\x03")
+        else:
+            for pid in self.kind_pids(kind):
+                try:
+                    os.kill(pid, signal.SIGTERM)
+                except OSError:
+                    pass
+        if not self.wait_until(lambda: not self.kind_pids(kind, only_sleep=False), 60, "command gone") and not self.s.fzf_gone():
+            raise Infra("command %s did not end" % kind)
+        if self.s.fzf_gone():
+            return
+        if kind == "execute":
+            self.wait_until(lambda: self.paste_count() > before, 60, "renderer resumed")
+        elif kind == "silent" and was == "cooked":
+            self.wait_until(lambda: self.s.termios_state() == "raw", 60, "raw mode again")
+        if not self.s.fzf_gone():
+            self.observe()
+
+    def bgpause(self):
+        if not self.wait_until(lambda: self.s.termios_state() == "cooked", 60, "renderer paused") and not self.s.fzf_gone():
+            raise Infra("execute-silent: the renderer was never paused")
+        self.s.drain()
+        self.mark({"ev": "tio", "tio": self.s.termios_state()})
+
+    def suspend(self):
+        """ctrl-z.  fzf pauses the renderer and sends SIGTSTP to its process group; on this terminal there is no job
+        control shell (the group is orphaned, the kernel discards the stop), so fzf goes straight on to re-initialise."""
+        before_on, before_off = self.paste_count(), self.s.stream().count(b"\x1b[?2004l")
+        self.mark({"ev": "stopped"})
+        self.s.send(b"\x1a")
+        if self.cfg["full"]:
+            ok = self.wait_until(lambda: self.paste_count() > before_on, 60, "renderer re-initialised")
+        else:
+            ok = self.wait_until(lambda: self.s.stream().count(b"\x1b[?2004l") > before_off and self.s.termios_state() == "raw", 60,
+                                 "renderer re-initialised")
+        if not ok and not self.s.fzf_gone():
+            raise Infra("ctrl-z: no sign of fzf re-initialising the renderer")
+        self.s.drain()
+
+    def cont(self):
+        if self.proc_state() == "T":
+            os.kill(self.s.fzf_pid(), signal.SIGCONT)
+            self.wait_until(lambda: self.proc_state() != "T", 60, "continued")
+        self.probe_alive()
+        self.s.drain()
+        self.mark({"ev": "tio", "tio": self.s.termios_state()})
+
+    def cursor(self):
+        self.post("toggle-input")
+        self.probe_alive()
+
+    def request(self, how, via=None, send=True):
+        """Asks fzf to exit.  how: the spec's name; via: the concrete stimulus."""
+        self.mark({"ev": "req", "how": how})
+        self.requested.append(how)
+        if not send:
+            return
+        via = via or how
+        if via in ("SIGINT", "SIGTERM"):
+            os.kill(self.s.fzf_pid(), getattr(signal, via))
+        elif via.startswith("key:"):
+            self.s.send(bytes.fromhex(via[4:]))
+        elif via.startswith("post:"):
+            self.post(via[5:], final=True)
+        else:
+            raise Infra("unknown exit stimulus " + via)
+
+    def finish(self, grace=3.0):
+        """Waits for fzf to go; a command that owns the terminal is ended first (exits are deferred until then);
+        takes the final observations.  Returns the list of events of this life."""
+        s = self.s
+        status = s.wait_exit(grace)
+        rounds = 0
+        while status is None and rounds < 4:
+            rounds += 1
+            owners = [k for k in ("execute", "silent") if self.kind_pids(k, only_sleep=False)]
+            if self.proc_state() == "T":
+                self.cont()
+            elif owners:
+                self.observe()
+                for k in owners:
+                    self.end(k)
+            elif rounds >= 2:
+                # nothing owns the terminal and fzf is still there: the request was dropped (SIGINT meant for a
+                # command) or swallowed by the terminal: ask again
+                self.probe_alive()
+                self.request("abort", "post:abort")
+            status = s.wait_exit(20 if rounds < 4 else 60)
+        gone = status is not None
+        s.drain() if gone else None
+        # kills sent by fzf are asynchronous: give the victims time to die before calling them survivors
+        t0 = time.time()
+        kinds, owners = self.world()
+        while kinds and time.time() - t0 < 10:
+            time.sleep(0.05)
+            kinds, owners = self.world()
+        kinds, owners = self.world()
+        raw = s.stream()
+        self.mark({"ev": "exit", "status": status if gone else -1, "tio": s.termios_state(), "tio_same": s.termios_restored(),
+                   "kinds": kinds, "temps": owners, "port": s.port_open(), "alive": self.alive, "panic": has_panic(raw),
+                   "gone": gone})
+        return self.events()
+
+    def events(self, raw=None):
+        raw = self.s.stream() if raw is None else raw
+        merged = [((off, 1, i), {"ev": "mode", "m": name, "on": on}) for i, (off, name, on) in enumerate(mode_events(raw))]
+        merged += [((off, 0, i), ev) for off, i, ev in self.marks]
+        merged.sort(key=lambda x: x[0])
+        c = self.cfg
+        return [{"ev": "start", "sid": self.sid, "cfg": {"full": c["full"], "mouse": c["mouse"], "clear": c["clear"], "listen": True},
+                 "cmds": self.cmds}] + [e for _, e in merged]
+
+    def close(self):
+        self.s.close()
+
+
+def tracked_ops(events):
+    return [{"m": e["m"], "on": e["on"]} for e in events if e["ev"] == "mode" and e["m"] in ("alt", "m1000", "m1002", "m1006", "paste")]
+
+
+# ---------------------------------------------------------------------------------------------------------------
+# Robustness sessions: the real fzf in a tmux pane (a full terminal emulator: any size from 1x1, answers queries,
+# keeps its own record of the modes), raw output through `pipe-pane`
+# ---------------------------------------------------------------------------------------------------------------
+WRAPPER = r'''#!/bin/sh
+# runs the real fzf (pid recorded, session marker only on fzf and what it starts), keeps the pane alive afterwards
+# so that the emulator's mode flags and the termios of the pane's tty can still be read
+trap : INT QUIT TSTP
+D=$PWD
+while [ ! -e "$D/go" ]; do sleep 0.02; done
+VERIF_SID="$VERIF_SID_PASS" sh -c 'echo $$ > "$0/fzf.pid.tmp"; mv "$0/fzf.pid.tmp" "$0/fzf.pid"; exec "$@"' "$D" "$VERIF_REAL_FZF" "$@"
+st=$?
+echo $st > "$D/fzf.status.tmp"; mv "$D/fzf.status.tmp" "$D/fzf.status"
+while [ ! -e "$D/release" ]; do sleep 0.05; done
+exit $st
+'''
+TMUX_FLAGS = "#{alternate_on} #{mouse_standard_flag} #{mouse_button_flag} #{mouse_sgr_flag} #{cursor_flag} #{wrap_flag} #{mouse_any_flag}"
+
+
+class TmuxLife:
+    def __init__(self, ctx, fzf, sid, cfg, extra_args=(), input_bytes=b"a\nb\n", size=(80, 24)):
+        self.ctx, self.sid, self.cfg = ctx, sid, cfg
+        wrapper = os.path.join(ctx.work, "fzf-wrapper.sh")
+        if not os.path.exists(wrapper):
+            with open(wrapper + ".%d" % threading.get_ident(), "w") as fh:
+                fh.write(WRAPPER)
+            os.chmod(wrapper + ".%d" % threading.get_ident(), 0o755)
+            os.replace(wrapper + ".%d" % threading.get_ident(), wrapper)
+        self.marker = "R%d_%d" % (os.getpid(), sid)
+        self.t = tmuxdrv.Session(ctx, wrapper, cfg_args(cfg) + list(extra_args), input_data=input_bytes, width=size[0], height=size[1],
+                                 env={"VERIF_SID_PASS": self.marker, "VERIF_REAL_FZF": fzf},
+                                 shell_prefix="trap : INT QUIT TSTP; ")     # bytes typed after fzf has gone may be ^C ^\\ ^Z
+        self.dir = self.t.dir
+        self.logp = os.path.join(self.dir, "pane.raw")
+        self.marks = []
+        self.alive = True
+        self.notes = []
+        self.t.tmux("pipe-pane", "-t", "s", "-o", "cat >> %s" % shlex.quote(self.logp))
+        tty = self.t.tmux("display", "-p", "-t", "s", "#{pane_tty}").strip()
+        self.ttyfd = os.open(tty, os.O_RDONLY | os.O_NOCTTY | os.O_NONBLOCK)
+        self.termios_before = termios.tcgetattr(self.ttyfd)
+        open(os.path.join(self.dir, "go"), "w").close()
+
+    def stream(self):
+        try:
+            with open(self.logp, "rb") as fh:
+                return fh.read()
+        except FileNotFoundError:
+            return b""
+
+    def offset(self):
+        try:
+            return os.path.getsize(self.logp)
+        except OSError:
+            return 0
+
+    def mark(self, ev, off=None):
+        self.marks.append((self.offset() if off is None else off, len(self.marks), ev))
+
+    def fzf_pid(self):
+        p = os.path.join(self.dir, "fzf.pid")
+        t0 = time.time()
+        while not os.path.exists(p):
+            if time.time() - t0 > 60:
+                raise Infra("fzf pid file never appeared (tmux)")
+            time.sleep(0.01)
+        return int(open(p).read().strip())
+
+    def gone(self):
+        return os.path.exists(os.path.join(self.dir, "fzf.status"))
+
+    def status(self):
+        return int(open(os.path.join(self.dir, "fzf.status")).read().strip())
+
+    def init(self):
+        self.t.wait_listening(timeout=90)
+        t0 = time.time()
+        while PASTE_ON not in self.stream():
+            if time.time() - t0 > 90:
+                raise Infra("tmux session: renderer initialisation not seen; screen:\n" + "\n".join(self.t.capture()))
+            if self.gone():
+                raise Infra("tmux session: fzf exited during start")
+            time.sleep(0.01)
+
+    def probe_alive(self):
+        if self.gone():
+            return
+        for _ in range(2):
+            try:
+                if self.t.get(limit=3, timeout=30) is not None:
+                    return
+            except (OSError, http.client.HTTPException, ValueError):
+                pass
+            if self.wait_gone(5):        # the listener closes a moment before the process is gone
+                return
+        self.alive = False
+
+    def wait_gone(self, timeout):
+        t0 = time.time()
+        while not self.gone():
+            if time.time() - t0 > timeout:
+                return False
+            time.sleep(0.01)
+        return True
+
+    def children(self):
+        ex = set()
+        try:
+            ex.add(self.fzf_pid())
+        except Infra:
+            pass
+        return marked_processes(self.marker, exclude=ex)
+
+    def temp_files(self):
+        return sorted(f for f in os.listdir(self.dir) if f.startswith("fzf-temp-"))
+
+    def finish(self):
+        gone = self.gone()
+        if gone:
+            # let the pane log catch up with what fzf wrote last
+            last, t0 = -1, time.time()
+            while time.time() - t0 < 10:
+                n = self.offset()
+                if n == last:
+                    break
+                last = n
+                time.sleep(0.1)
+        t0 = time.time()
+        procs = self.children()
+        while procs and time.time() - t0 < 10:
+            time.sleep(0.05)
+            procs = self.children()
+        kinds = sorted({kind_of(c) for _, _, c in procs})
+        owners = []
+        for f in self.temp_files():
+            own = sorted({kind_of(c) for _, _, c in procs if f in c})
+            owners.append(own[0] if own else "none")
+        fl = self.t.tmux("display", "-p", "-t", "s", TMUX_FLAGS).split()
+        emu = {"alt": fl[0] == "1", "m1000": fl[1] == "1", "m1002": fl[2] == "1", "m1006": fl[3] == "1", "cursor": fl[4] == "1",
+               "wrap": fl[5] == "1"}
+        try:
+            now = termios.tcgetattr(self.ttyfd)
+        except termios.error as ex:
+            raise Infra("tmux pane's tty is gone (%s); pane dead=%s" % (ex, self.t.tmux("display", "-p", "-t", "s", "#{pane_dead}", check=False).strip()))
+        raw = self.stream()
+        screen = "\n".join(self.t.capture()).encode(errors="replace")
+        port_open = True
+        try:
+            c = socket.create_connection(("127.0.0.1", self.t.port), timeout=1.0)
+            c.close()
+        except OSError:
+            port_open = False
+        self.mark({"ev": "exit", "status": self.status() if gone else -1, "tio": classify_termios(now),
+                   "tio_same": now[:6] == self.termios_before[:6] and now[6] == self.termios_before[6], "kinds": kinds, "temps": sorted(owners),
+                   "port": port_open, "alive": self.alive, "panic": has_panic(raw) or has_panic(screen), "gone": gone, "emu": emu})
+        merged = [((off, 1, i), {"ev": "mode", "m": name, "on": on}) for i, (off, name, on) in enumerate(mode_events(raw))]
+        merged += [((off, 0, i), ev) for off, i, ev in self.marks]
+        merged.sort(key=lambda x: x[0])
+        c = self.cfg
+        return [{"ev": "start", "sid": self.sid, "cfg": {"full": c["full"], "mouse": c["mouse"], "clear": c["clear"], "listen": True},
+                 "cmds": []}] + [e for _, e in merged]
+
+    def close(self):
+        try:
+            open(os.path.join(self.dir, "release"), "w").close()
+        except OSError:
+            pass
+        kill_marked(self.marker)
+        try:
+            os.close(self.ttyfd)
+        except OSError:
+            pass
+        self.t.close()
